@@ -140,7 +140,7 @@ package s2
 // ---------------------------------------------------------------- EdgeQuery: options are inputs, never outputs
 
 // MaxResults must be at least 1 (documented requirement of the options)
-//@ spec func vcEQ(e *EdgeQuery) bool = e != nil && e.opts != nil && e.opts.maxResults >= 1
+//@ spec func vcEQ(e *EdgeQuery) bool = e != nil && e.opts != nil && e.opts.maxResults >= 1 && e.index != nil
 
 //@ func (e *EdgeQuery) findEdgesBruteForce()
 //@   assumed "the brute-force scan (float distances through the target interface): it only appends to the results of this call"
@@ -195,37 +195,37 @@ package s2
 //@   ensures result.distance != nil
 
 //@ func (e *EdgeQuery) FindEdges(target distanceTarget) []EdgeQueryResult
-//@   requires vcEQ(e)
+//@   requires vcEQ(e) && target != nil
 //@   replay in_e.index = NewShapeIndex(); in_e.testedEdges = map[ShapeEdgeID]uint32{}; in_e.queue = newQueryQueue(); in_target = NewMinDistanceToPointTarget(PointFromCoords(1, 0, 0)); if in_e.opts.maxResults > 1000 { in_e.opts.maxResults = 5 }
 //@   noframe
 //@   ensures [opts-unchanged] e.opts == old(e.opts) && vcSame(*e.opts, old(*e.opts))
 
 //@ func (e *EdgeQuery) Distance(target distanceTarget) s1.ChordAngle
-//@   requires vcEQ(e)
+//@   requires vcEQ(e) && target != nil
 //@   replay in_e.index = NewShapeIndex(); in_e.testedEdges = map[ShapeEdgeID]uint32{}; in_e.queue = newQueryQueue(); in_target = NewMinDistanceToPointTarget(PointFromCoords(1, 0, 0)); if in_e.opts.maxResults > 1000 { in_e.opts.maxResults = 5 }
 //@   noframe
 //@   ensures [opts-unchanged] e.opts == old(e.opts) && vcSame(*e.opts, old(*e.opts))
 
 //@ func (e *EdgeQuery) IsDistanceLess(target distanceTarget, limit s1.ChordAngle) bool
-//@   requires vcEQ(e)
+//@   requires vcEQ(e) && target != nil
 //@   replay in_e.index = NewShapeIndex(); in_e.testedEdges = map[ShapeEdgeID]uint32{}; in_e.queue = newQueryQueue(); in_target = NewMinDistanceToPointTarget(PointFromCoords(1, 0, 0)); if in_e.opts.maxResults > 1000 { in_e.opts.maxResults = 5 }
 //@   noframe
 //@   ensures [opts-unchanged] e.opts == old(e.opts) && vcSame(*e.opts, old(*e.opts))
 
 //@ func (e *EdgeQuery) IsDistanceGreater(target distanceTarget, limit s1.ChordAngle) bool
-//@   requires vcEQ(e)
+//@   requires vcEQ(e) && target != nil
 //@   replay in_e.index = NewShapeIndex(); in_e.testedEdges = map[ShapeEdgeID]uint32{}; in_e.queue = newQueryQueue(); in_target = NewMinDistanceToPointTarget(PointFromCoords(1, 0, 0)); if in_e.opts.maxResults > 1000 { in_e.opts.maxResults = 5 }
 //@   noframe
 //@   ensures [opts-unchanged] e.opts == old(e.opts) && vcSame(*e.opts, old(*e.opts))
 
 //@ func (e *EdgeQuery) IsConservativeDistanceLessOrEqual(target distanceTarget, limit s1.ChordAngle) bool
-//@   requires vcEQ(e)
+//@   requires vcEQ(e) && target != nil
 //@   replay in_e.index = NewShapeIndex(); in_e.testedEdges = map[ShapeEdgeID]uint32{}; in_e.queue = newQueryQueue(); in_target = NewMinDistanceToPointTarget(PointFromCoords(1, 0, 0)); if in_e.opts.maxResults > 1000 { in_e.opts.maxResults = 5 }
 //@   noframe
 //@   ensures [opts-unchanged] e.opts == old(e.opts) && vcSame(*e.opts, old(*e.opts))
 
 //@ func (e *EdgeQuery) IsConservativeDistanceGreaterOrEqual(target distanceTarget, limit s1.ChordAngle) bool
-//@   requires vcEQ(e)
+//@   requires vcEQ(e) && target != nil
 //@   replay in_e.index = NewShapeIndex(); in_e.testedEdges = map[ShapeEdgeID]uint32{}; in_e.queue = newQueryQueue(); in_target = NewMinDistanceToPointTarget(PointFromCoords(1, 0, 0)); if in_e.opts.maxResults > 1000 { in_e.opts.maxResults = 5 }
 //@   noframe
 //@   ensures [opts-unchanged] e.opts == old(e.opts) && vcSame(*e.opts, old(*e.opts))
